@@ -296,3 +296,22 @@ pub fn quiet_panics() {
     }
     std::panic::set_hook(Box::new(|_| {}));
 }
+
+
+/// A driver's whole campaign has a wall-clock budget (VERIF_BUDGET_S, default 900 s): a change to the code under
+/// test that makes every request run into a timeout must not turn a ten-second check into hours.  When the budget
+/// is used up the trace recorded so far is written and the driver stops; the (shorter) trace is validated as usual
+/// and `<out>.truncated` tells the orchestration that it is a prefix.
+pub fn campaign_budget(out: &str) {
+    let secs: u64 = std::env::var("VERIF_BUDGET_S").ok().and_then(|s| s.parse().ok()).unwrap_or(900);
+    let out = out.to_string();
+    let _ = std::fs::remove_file(format!("{}.truncated", out));
+    std::thread::spawn(move || {
+        std::thread::sleep(std::time::Duration::from_secs(secs));
+        let lines = dropshot::verif::take_memory();
+        let _ = std::fs::write(&out, lines.join("\n") + "\n");
+        let _ = std::fs::write(format!("{}.truncated", out), format!("budget of {} s used up after {} events\n", secs, lines.len()));
+        println!("{}", serde_json::json!({"events": lines.len(), "stopped": "budget"}));
+        std::process::exit(0);
+    });
+}
